@@ -5,6 +5,15 @@ round's prompts: same text (property statement + task), new worktree name, and t
 seeded/<ID>-*/meta.json (what the change was / what it needs to manifest). Nothing else from /verif enters a prompt."""
 import sys, json, glob, re, subprocess, os
 prev, new = sys.argv[1], sys.argv[2]
+# what a well-equipped tester already does, in general terms (no detail of /verif)
+CAPS = ("and who already tests with unusual and algebraically structured inputs, inputs SOLVED from the algorithm's linear "
+        "structure (crafted timer deltas and seeds that produce chosen values, zero words, fixed points), very long histories "
+        "(more than 2^16 operations or values from one instance), manufactured states, misaligned buffers, objects placed at "
+        "different addresses and alignments, every build profile, cargo feature, common rustc cfg and target-cpu=native, an "
+        "installed logger, code running while the thread unwinds or on other threads, earlier activity of other instances in the "
+        "same process (including real-clock JitterRng::new()), generic and concrete-type call sites, used, cloned, copied and "
+        "deserialised objects (through slices, readers with short reads, serde_json::Value, snapshots embedded in larger "
+        "documents, damaged snapshots), several threads and several processes ")
 for f in sorted(glob.glob(f"/tmp/seed/C??-{prev}.full.txt")):
     pid = os.path.basename(f)[:3]
     s = open(f).read().replace(f"{pid}-{prev}", f"{pid}-{new}")
@@ -14,6 +23,9 @@ for f in sorted(glob.glob(f"/tmp/seed/C??-{prev}.full.txt")):
     i = s.index("  - ", s.index("The following ideas are TAKEN"))
     j = s.index("Find a genuinely NEW mechanism")
     s = s[:i] + "".join("  - %s\n" % x for x in ideas) + s[j:]
+    a = s.index("and who already tests with")
+    b = s.index("- would still not think of")
+    s = s[:a] + CAPS + s[b:]
     open(f"/tmp/seed/{pid}-{new}.full.txt", "w").write(s)
     wt = f"/tmp/seed/{pid}-{new}"
     if not os.path.isdir(wt):
